@@ -47,6 +47,7 @@ type Profile struct {
 	EmptyFeeP    float64  // probability of a fee action with an empty list
 	InitLimitP   float64  // probability that the run starts by raising the passthrough limit
 	ModeBEvery   int      // k>0: every k-th run uses the interposed (mode B) node
+	SatGenesisEvery int   // k>0: one run in k starts from a genesis whose dispatch statistics are saturated
 	BigBatchP    float64  // probability that a pause-cross-chains message carries a batch around the limit of 100 identifiers
 	CrashP       float64  // probability that the node crashes between executing and committing a block (and re-executes it after the restart)
 	ByzPlainP    float64  // probability that a byzantine packet names a receiver other than the orbiter account
